@@ -29,6 +29,8 @@ ASSUMPTIONS = [
     "(hashlib answers them at run time)",
     "paths are ASCII (the model of int(str) covers ASCII text; Python also accepts non-ASCII Unicode digits/spaces)",
     "keys are ints / 2-tuples of ints / None as the library passes them; negative scalars are outside the model",
+    "finding kept in the model: CKDpub has no check for K_i = infinity and returns (None, c_i) where CKDpriv raises "
+    "(k_i = 0); derive_from_path still fails (ValueError in serialized_extended_key); reachable only on the small curves",
     "modelled, not verified: src/bits/bips/bip32.py, src/bits/wallet/hd.py (get_xpub, derive_from_path), "
     "src/bits/utils.py (pubkey compressed, point, privkey_int, pubkey_hash), src/bits/bips/bip43.py (thin wrappers)",
 ]
